@@ -21,7 +21,7 @@ Not decided: that removed nodes are no longer referenced (needs hash-value reaso
 import re
 
 from fvlib.core import (CFG, CallGraph, agg_blocks, assignments, bool_consumers, call_blocks, calls, callee_matches,
-                        callee_name, dbg_name, describe, describe_place, forward_aliases, guards, short)
+                        callee_name, dbg_name, describe, describe_nf, describe_place, forward_aliases, guards, short)
 from fvlib.summ import ok_sites
 
 MT = "fuel_merkle::sparse::merkle_tree::MerkleTree::<TableType, StorageType>::"
@@ -125,17 +125,19 @@ def run(F, rep, tier, allfacts):
     for m in ("update_with_path_set", "delete_with_path_set"):
         n, f = F.find("^" + re.escape(MT) + m + "$", ["fuel_merkle"], one=True)
         cfg = CFG(f)
-        sr = [(i, describe(f, args[1], depth=8)) for i, c, args, *_ in calls(f) if callee_matches(c, r"::set_root_node$")]
+        sr = [(i, describe(f, args[1], depth=8), describe_nf(F, f, args[1], depth=16)) for i, c, args, *_ in calls(f) if callee_matches(c, r"::set_root_node$")]
         oks = ok_sites(f, cfg)
         muts = [i for i, c, *_ in calls(f) if callee_matches(c, INSERT) or callee_matches(c, r"^fuel_storage::StorageMutate::remove$")]
-        ok = len(sr) == 1 and sr[0][1] == "var:current_node"
+        # the node handed to set_root_node is the running node of the bottom-up rebuild (whatever it is called): the
+        # variable that the merge loop assigns create_node_from_hashes(..) to
+        ok = len(sr) == 1 and sr[0][1].startswith("var:") and "create_node_from_hashes(" in sr[0][2]
         if ok:
             # every Ok exit reachable after a storage mutation passes set_root_node
             for o in oks:
                 for mb in muts:
                     if o in cfg.reachable_from(mb) and o in cfg._reach_from([f["bbs"][mb]["t"][4]], avoid={sr[0][0]}):
                         ok = False
-        rep.check(ok, "ROOT-last", m, "%s:%s" % (f["file"], f["line"]), "%s must finish with set_root_node(current_node) on every Ok path that mutated storage; set_root_node calls %s" % (m, sr))
+        rep.check(ok, "ROOT-last", m, "%s:%s" % (f["file"], f["line"]), "%s must finish with set_root_node(current_node) on every Ok path that mutated storage; set_root_node calls %s" % (m, [x[:2] for x in sr]))
 
     # ---------------- load
     n, f = F.find("^" + re.escape(MT) + "load$", ["fuel_merkle"], one=True)
